@@ -14,7 +14,7 @@ ASSUMPTIONS = ['accepted side: unit norm within 1e-12, direction cosine with the
                'the generator behind random_attitudes is an owned seam: np.random.default_rng is replaced by a stub whose uniform() returns every point of {0,1e-12,.25,.5,.75,1-1e-12}^3',
                'rotate_by(order="S") is only required to return unit rows (its intended ordering semantics are ambiguous in the documentation)',
                'infinite components are not judged (the statement speaks of finite vectors and of NaN)']
-REQUIRED_CLASSES = ['near-unit', 'vec3', 'vec4', 'array', 'dcm-route', 'addsub', 'rotate_by', 'average', 'random', 'reject:vector', 'reject:matrix', 'accept:matrix', 'layout']
+REQUIRED_CLASSES = ['reject:object-unchanged', 'near-unit', 'vec3', 'vec4', 'array', 'dcm-route', 'addsub', 'rotate_by', 'average', 'random', 'reject:vector', 'reject:matrix', 'accept:matrix', 'layout']
 DECADES = [10.0 ** k for k in range(-100, 101, 10)]
 
 
@@ -516,6 +516,39 @@ def job_reject(ctx, k):
                     continue
                 must_reject(lambda: fn(M), f'{rn}: wrong shape', f'shape={name}')
                 ctx.cls('reject:matrix')
+    # a REFUSED in-place call leaves the object it was called on as it was (still unit rows / a proper rotation, same elements)
+    rowsQ = np.array([A.MENU[(k + j) % 8] for j in range(5)])
+    badR = np.array([good, good @ np.diag([-1.0, 1.0, 1.0]), good])            # a reflection in the stack
+    for nm, mk, ops in (('QuaternionArray', lambda: QuaternionArray(rowsQ.copy()),
+                         [('from_DCM(stack with a reflection)', lambda o: o.from_DCM(badR.copy())), ('from_DCM(itzhack, version=7)', lambda o: o.from_DCM(np.array([good, good]), method='itzhack', version=7)),
+                          ('from_DCM(NaN matrix)', lambda o: o.from_DCM(np.array([good, good * np.nan]))), ('from_rpy(wrong shape)', lambda o: o.from_rpy(np.ones((3, 2)))),
+                          ('rotate_by(zero quaternion, inplace=True)', lambda o: o.rotate_by(np.zeros(4), inplace=True)), ('rotate_by(NaN, inplace=True)', lambda o: o.rotate_by(np.full(4, np.nan), inplace=True))]),
+                        ('Quaternion', lambda: Quaternion(rowsQ[1].copy()),
+                         [('from_DCM(reflection)', lambda o: o.from_DCM(badR[1].copy())), ('from_rpy(NaN)', lambda o: o.from_rpy(np.array([0.1, nan, 0.3]))), ('rotate(wrong shape)', lambda o: o.rotate(np.ones((2, 5)))),
+                          ('product(zero-length)', lambda o: o.product(np.ones(2)))]),
+                        ('DCM', lambda: DCM(good.copy()),
+                         [('from_quaternion(zero)', lambda o: o.from_quaternion(np.zeros(4))), ('from_axisangle(zero axis)', lambda o: o.from_axisangle(np.zeros(3), 0.4)),
+                          ('from_q(NaN)', lambda o: o.from_q(np.full(4, np.nan)))])):
+        for on, op in ops:
+            obj = mk()
+            b0 = np.asarray(obj, float).copy()
+            a0 = np.asarray(getattr(obj, 'array', getattr(obj, 'A', None)), float).copy()
+            ctx.evals += 1
+            try:
+                op(obj)
+                ctx.outcome(('in-place-call-answered', nm, on))
+                continue                                   # answered, not refused: nothing to judge here
+            except Exception:
+                pass
+            same = np.array_equal(np.asarray(obj, float), b0) and np.array_equal(np.asarray(getattr(obj, 'array', getattr(obj, 'A', None)), float), a0)
+            ctx.expect(same, f'{nm}: a refused call leaves the object as it was', f'op={on} k{k}', np.asarray(getattr(obj, 'array', getattr(obj, 'A', None)), float).ravel()[:4], a0.ravel()[:4])
+            try:
+                Ms = np.asarray(obj.to_DCM() if nm != 'DCM' else obj, float)
+                ok = max(rq.so3_defect(m_) for m_ in (Ms if Ms.ndim == 3 else [Ms])) <= 1e-12
+            except Exception as ex:
+                ok = False
+            ctx.expect(ok, f'{nm}: after a refused call the object still converts to proper rotations', f'op={on} k{k}', None, 'rotations')
+            ctx.cls('reject:object-unchanged')
     ctx.sample({'perturbation': 'R @ (I + eps e_i e_j^T)', 'eps_accept': [1e-15, 1e-12], 'eps_reject': [1.01e-4, 1.0]})
 
 
